@@ -8,6 +8,12 @@ CONSTANT DepthSet = "std"
 CONSTANT TrimShallow = TRUE
 CONSTANT Arity = 3
 CONSTANT SampleMod = 61
+CONSTANT TipKind = "slots"
+CONSTANT RBlocks = {}
+CONSTANT SpanBases = {}
+CONSTANT SpanMults = {}
+CONSTANT SpanOffsets = {}
+CONSTANT ResRoot = 1
 INIT Init
 NEXT Next
 INVARIANT Reflexive
@@ -23,5 +29,8 @@ INVARIANT DeepDenserWins
 INVARIANT DenserIsStrict
 INVARIANT DensityOrderIsDenser
 INVARIANT DeepTieIsPraos
+INVARIANT UnequalRatioDecides
+INVARIANT EqualRatioTies
 INVARIANT Transitive
+INVARIANT DensityTieTransitive
 INVARIANT PreferredOrderFree
